@@ -262,6 +262,26 @@ func cmdCheck(args []string) int {
 		}
 		sort.Slice(conformance, func(i, j int) bool { return conformance[i]["function"].(string) < conformance[j]["function"].(string) })
 	}
+	// A function whose own obligation failed is not reported as vacuous: every obligation is assumed once asserted, so a
+	// failed (false) clause makes the assumptions at the exits contradictory - a consequence of the violation, not an
+	// engine problem. Vacuity of a function all of whose obligations were discharged stays an engine error.
+	if len(out.Vacuous) > 0 {
+		failedFn := map[string]bool{}
+		for _, r := range out.Results {
+			if r.Res.Status != "unsat" {
+				failedFn[r.Obl.Fn] = true
+			}
+		}
+		var keep []string
+		for _, v := range out.Vacuous {
+			if failedFn[v] {
+				fmt.Printf("note: the exits of %s are unreachable under its asserted clauses (one of them failed, see above)\n", v)
+				continue
+			}
+			keep = append(keep, v)
+		}
+		out.Vacuous = keep
+	}
 	for _, v := range out.Vacuous {
 		fmt.Printf("ENGINE-ERROR: vacuous assumptions in %s (a planted assert-false at its exits is provable)\n", v)
 	}
